@@ -339,3 +339,121 @@ Definition poly_sweep (lo hi step : Z) : list Z :=
   else let st := sweep_step lo hi step in
        let k := arange_len lo (hi + st) st in
        if k =? 0 then [lo] else map (fun i => lo + i * st) (zrange 0 k).
+
+(* ------------------------------------------------------------------------------------------ *)
+(** * 2-D adaptive_minmax (two_d/optimizers.py:207-265) *)
+(* _get_row_col_values: a scalar, (rows, columns) or (first row, last row, first column, last column) *)
+Inductive rc (A : Type) := RC1 (a : A) | RC2 (a b : A) | RC4 (a b c d : A).
+Arguments RC1 {A}. Arguments RC2 {A}. Arguments RC4 {A}.
+Definition fill4 {A} (v : rc A) : A * A * A * A :=
+  match v with RC1 a => (a, a, a, a) | RC2 a b => (a, a, b, b) | RC4 a b c d => (a, b, c, d) end.
+
+Definition in_sl (n : Z) (s e : option Z) (i : Z) : bool := (sl_start n s <=? i) && (i <? sl_stop n e).
+(* a[s:e] = v  and  a[:, s:e] = v  on an (m, n) array *)
+Definition assign_rows {A} (m : Z) (s e : option Z) (v : A) (a : Z -> Z -> A) : Z -> Z -> A :=
+  fun i j => if in_sl m s e i then v else a i j.
+Definition assign_cols {A} (n : Z) (s e : option Z) (v : A) (a : Z -> Z -> A) : Z -> Z -> A :=
+  fun i j => if in_sl n s e j then v else a i j.
+(* the four writes, in the order of the code: first rows, first columns, last rows, last columns *)
+Definition constrain2d {A} (m n c0 c1 c2 c3 : Z) (w0 w1 w2 w3 : A) (a : Z -> Z -> A) : Z -> Z -> A :=
+  assign_cols n (Some (n - c3)) None w3
+    (assign_rows m (Some (m - c1)) None w1
+       (assign_cols n None (Some c2) w2
+          (assign_rows m None (Some c0) w0 a))).
+(* _sort_array2d with the four layouts of Baseline2D._sort_order: None, x order only (a[px]),
+   z order only (a[..., pz]), both (a[px[:, None], pz[None, :]]): always a[px i][pz j] *)
+Definition perm_of (o : option ((Z -> Z) * (Z -> Z))) (inverse : bool) : Z -> Z :=
+  match o with None => fun i => i | Some (p, q) => if inverse then q else p end.
+Definition gather2 {A} (a : Z -> Z -> A) (px pz : Z -> Z) : Z -> Z -> A := fun i j => a (px i) (pz j).
+Definition minmax2d_weights {A} (m n : Z) (ox oz : option ((Z -> Z) * (Z -> Z))) (c0 c1 c2 c3 : Z)
+    (w0 w1 w2 w3 : A) (w : Z -> Z -> A) : (Z -> Z -> A) * (Z -> Z -> A) :=
+  match ox, oz with
+  | None, None => (w, constrain2d m n c0 c1 c2 c3 w0 w1 w2 w3 w)
+  | _, _ =>
+      let ws := gather2 w (perm_of ox false) (perm_of oz false) in
+      (gather2 ws (perm_of ox true) (perm_of oz true),
+       gather2 (constrain2d m n c0 c1 c2 c3 w0 w1 w2 w3 ws) (perm_of ox true) (perm_of oz true))
+  end.
+Definition to_list2 {A} (m n : Z) (f : Z -> Z -> A) : list A :=
+  flat_map (fun i => map (fun j => f i j) (zrange 0 n)) (zrange 0 m).
+Definition of_list2 {A} (d : A) (n : Z) (l : list A) : Z -> Z -> A := fun i j => nth (Z.to_nat (i * n + j)) l d.
+
+(* ------------------------------------------------------------------------------------------ *)
+(** * the nested loops of brpls / pspline_brpls (whittaker.py:905-944), as a 2-level skeleton *)
+Section Nested.
+  Variables (W B Beta D D2 : Type).
+  Variable solve : W -> B.
+  Variable reweight : B -> Beta -> W * bool.        (* _weighting._brpls: (new weights, exit_early) *)
+  Variable diff : B -> B -> D.                      (* relative_difference(baseline, new_baseline) *)
+  Variable below : D -> bool.                       (* calc_difference < tol *)
+  Variable diff2 : Beta -> W -> D2.                 (* abs(beta + mean(weights) - 1) *)
+  Variable below2 : D2 -> bool.                     (* calc_difference_2 < tol_2 *)
+  Variable below2_inf : D2 -> bool.                 (* ... after `tol_2 = np.inf` on an early exit *)
+  Variable next_beta : W -> Beta.                   (* 1 - mean(weights) *)
+
+  Record inner_res := { i_new : W; i_base : B; i_bw : W; i_forced : bool; i_solves : nat }.
+
+  (* `for j in range(max_iter + 1)`: [f] passes remain after this one; [first] = (i == 0 and j == 0) *)
+  Fixpoint inner (f : nat) (first : bool) (beta : Beta) (w : W) (b : B) (bw : W) (cnt : nat) : inner_res :=
+    let nb := solve w in
+    let '(nw, early) := reweight nb beta in
+    if early then {| i_new := nw; i_base := if first then nb else b; i_bw := bw; i_forced := true; i_solves := S cnt |}
+    else if below (diff b nb)
+         then {| i_new := nw; i_base := if first then nb else b; i_bw := bw; i_forced := false; i_solves := S cnt |}
+         else match f with
+              | O => {| i_new := nw; i_base := nb; i_bw := w; i_forced := false; i_solves := S cnt |}
+              | S f' => inner f' false beta nw nb w (S cnt)
+              end.
+
+  (* `for i in range(max_iter_2 + 1)`; returns (baseline, params['weights'], number of solves) *)
+  Fixpoint outer (max_iter : nat) (f2 : nat) (first : bool) (beta : Beta) (w : W) (b : B) (bw : W) (cnt : nat)
+      : B * W * nat :=
+    let r := inner max_iter first beta w b bw cnt in
+    let d2 := diff2 beta (i_new r) in
+    if (if i_forced r then below2_inf d2 else below2 d2) then (i_base r, i_bw r, i_solves r)
+    else match f2 with
+         | O => (i_base r, i_bw r, i_solves r)
+         | S f2' => outer max_iter f2' false (next_beta (i_new r)) (i_new r) (i_base r) (i_bw r) (i_solves r)
+         end.
+
+  (* brpls(y, weights = w0): beta = 0.5, baseline = y, baseline_weights = weight_array = w0 *)
+  Definition brpls_loops (max_iter max_iter_2 : nat) (beta0 : Beta) (w0 : W) (y : B) : B * W * nat :=
+    outer max_iter max_iter_2 true beta0 w0 y w0 0%nat.
+End Nested.
+
+(* ------------------------------------------------------------------------------------------ *)
+(** * optimize_extended_range: the lam grid  np.logspace(min, max, ceil((max - min) / step))  as the
+      list of exponents (lam = 10.0 ** exponent is the library's pow) *)
+Section LamGrid.
+  Variable K : NumI.
+  Let tadd := add K.  Let tmul := mul K.  Let tdiv := div K.  Let tsub := sub K.  Let tz := of_Z K.
+
+  (* np.linspace(lo, hi, num) in floating point (numpy 2.x), num >= 0 *)
+  Definition linspace_f (lo hi : T K) (num : Z) : list (T K) :=
+    let dv := num - 1 in
+    let delta := tsub hi lo in
+    let step := tdiv delta (tz dv) in
+    map (fun k =>
+           if (1 <? num) && (k =? num - 1) then hi
+           else
+             let yk := if 0 <? dv
+                       then (if is0 K step then tmul (tdiv (tz k) (tz dv)) delta else tmul (tz k) step)
+                       else tmul (tz k) delta in
+             tadd yk lo)
+        (zrange 0 num).
+
+  (* None: np.logspace raises (negative number of samples) *)
+  Definition lam_grid (lo hi step : T K) : option (list (T K)) :=
+    if is0 K step || eqb K lo hi then Some [lo]
+    else
+      let st := if ltb K hi lo && ltb K (tz 0) step then tsub (tz 0) step else step in
+      let num := ceilZ K (tdiv (tsub hi lo) st) in
+      if num <? 0 then None else if num =? 0 then Some [lo] else Some (linspace_f lo hi num).
+End LamGrid.
+
+(* the parameter reported as optimal: the grid value at the selected index *)
+Definition selected_param {P} (grid : list P) (errs : list Z) : option P :=
+  match argmin_first Z.ltb (fun _ => true) errs with
+  | Some (b, _) => nth_error grid b
+  | None => None
+  end.
